@@ -8,7 +8,7 @@ RULE = ("MC: toy list codec (3 satellites, 3 signals, per-satellite count field 
         "seeded lists inside the precondition (1..63 satellites, 1..12 / 1..4 distinct recognised signals per satellite, biases on the 14-bit grid incl. "
         "both ends, entries of one satellite scattered through the list), outside it (repeated signals > 31 per satellite, unrecognised signal), 1230 with "
         "every non-empty subset of its four signals in every order; TLC: MustErr => error, ok => wire bits = BiasList!Enc(entries) + zero padding and "
-        "decode = the same entries (bias bit patterns included) regrouped; decoded lists never exceed 390 entries (hostile frames: C02); every satellite id 0..66 alone; both build profiles (a panic is neither an error nor a frame); "
+        "decode = the same entries (bias bit patterns included) regrouped; decoded lists never exceed 390 entries (hostile frames: C02); every satellite id 0..66 alone; more than 31 entries for one satellite (contiguous, in separated runs, alternating, 32..390 incl. counts that wrap 8 bits): error, or a frame that still holds every entry; both build profiles (a panic is neither an error nor a frame); "
         "non-trivial = list inside the precondition; distinct = distinct lists")
 
 
